@@ -231,7 +231,9 @@ def event_obs(sc, lg, system, f):
                 else:
                     gval = 0.0
                 yv, dv = num.frac(fe[comp]), Fraction(1)
-            scale = s * eps * max(Fraction(1), abs(yv), abs(c)) * max(Fraction(1), abs(dv))
+            # the residual at the reported time cannot be smaller than the event function's change over one spacing of the times there
+            # (where the times are large compared with the step that spacing, eps |t_e|, dominates)
+            scale = s * eps * (max(Fraction(1), abs(yv), abs(c)) * max(Fraction(1), abs(dv)) + abs(dv) * abs(num.frac(te)))
             slope = Fraction(sp.get("s", 1.0)) * dv * dirsign if sp["kind"] == "state" else Fraction(0)
             root_gap = -1
         g_units = int(min(num.CAP, math.ceil(abs(num.frac(gval)) / scale))) if np.isfinite(float(gval)) else num.CAP
